@@ -369,9 +369,15 @@ impl AST {
                         parts.reverse();
                         let mut elems_iter = elems.drain(0..);
                         let mut parts_iter = parts.drain(0..);
+                        // An empty template has no parts at all. It formats to
+                        // an empty string.
+                        let first_part = match parts_iter.next() {
+                            Some(part) => part,
+                            None => TemplatePart::Str(Vec::new()),
+                        };
                         Self::translate_template_part(
                             def.pos.clone(),
-                            parts_iter.next().unwrap(),
+                            first_part,
                             &mut elems_iter,
                             ops,
                             true,
@@ -416,9 +422,13 @@ impl AST {
                         ops.push(Op::BindOver, expr_pos.clone());
                         let mut elems = Vec::new();
                         let mut elems_iter = elems.drain(0..);
+                        let first_part = match parts_iter.next() {
+                            Some(part) => part,
+                            None => TemplatePart::Str(Vec::new()),
+                        };
                         Self::translate_template_part(
                             def.pos.clone(),
-                            parts_iter.next().unwrap(),
+                            first_part,
                             &mut elems_iter,
                             ops,
                             false,
@@ -670,8 +680,23 @@ impl AST {
                     // In theory this should never be reachable
                     unreachable!();
                 } else {
-                    Self::translate_expr(elems.next().unwrap(), ops, root);
-                    ops.push(Op::Render, pos);
+                    match elems.next() {
+                        Some(elem) => {
+                            Self::translate_expr(elem, ops, root);
+                            ops.push(Op::Render, pos);
+                        }
+                        None => {
+                            // More placeholders than arguments is a compile error.
+                            ops.push(
+                                Op::Val(Primitive::Str(
+                                    "Not enough arguments for the placeholders in format string"
+                                        .into(),
+                                )),
+                                pos.clone(),
+                            );
+                            ops.push(Op::Bang, pos);
+                        }
+                    }
                 }
             }
             TemplatePart::Expression(expr) => {
